@@ -88,6 +88,9 @@ func RunRecycleWindows(part, parts int, t *Trace, seg int) int {
 		if parts > 1 && k%parts != part {
 			continue
 		}
+		if parts == -1 && e.hold != "relock" { // -parts -1: only the experiments that hold the victim at its re-lock
+			continue
+		}
 		seg = runRecycle(k, e, t, seg)
 	}
 	return seg
